@@ -237,3 +237,127 @@ def r16l(ctx):
                            f"Element.xpath wraps this result only under {[norm(t, 40) for t, _ in guards]}: some results of the query are dropped on the way to the caller")
     if n < 2:
         raise AnalysisError(f"R16l: only {n} result appends found in Element.xpath")
+
+
+_MUTATORS = ("setdefault", "update", "append", "add", "extend", "insert", "__setitem__", "pop", "clear", "remove", "popitem", "discard")
+
+
+def global_store_sites(repo):
+    """(function, node, global name): stores into a module-level container from inside a function — `G[k] = v`, `G.setdefault/append/…(…)`,
+    `global G` rebinding — where G is bound at module level of the function's module and not shadowed by a parameter or a local assignment."""
+    out = []
+    for f in repo.all_funcs():
+        m = f.module
+        mod_names = set()
+        for st in m.tree.body:
+            tg = st.targets if isinstance(st, ast.Assign) else [st.target] if isinstance(st, ast.AnnAssign) else []
+            for t in tg:
+                if isinstance(t, ast.Name):
+                    mod_names.add(t.id)
+        if not mod_names:
+            continue
+        local = {a.arg for a in f.all_params()}
+        declared_global = set()
+        for x in walk_no_nested(f.node):
+            if isinstance(x, ast.Global):
+                declared_global |= set(x.names)
+        for x in walk_no_nested(f.node):
+            if isinstance(x, ast.Name) and isinstance(x.ctx, ast.Store) and x.id not in declared_global:
+                local.add(x.id)
+        cand = (mod_names - local) | (declared_global & mod_names)
+        for x in walk_no_nested(f.node):
+            if isinstance(x, ast.Subscript) and isinstance(x.ctx, (ast.Store, ast.Del)) and isinstance(x.value, ast.Name) and x.value.id in cand:
+                out.append((f, x, x.value.id))
+            elif isinstance(x, ast.Call) and isinstance(x.func, ast.Attribute) and x.func.attr in _MUTATORS and isinstance(x.func.value, ast.Name) and x.func.value.id in cand:
+                out.append((f, x, x.func.value.id))
+            elif isinstance(x, ast.Name) and isinstance(x.ctx, ast.Store) and x.id in declared_global:
+                out.append((f, x, x.id))
+    return out
+
+
+# module-level containers a function may write, one named symbol each, with what governs it
+_GOVERNED_GLOBALS = {
+    ("src/odfdo/element.py", "_class_registry"): "the element class registry, filled at import time by register_element_class (replayed by the registry replica, C12)",
+    ("src/odfdo/mixin_md.py", "MD_GLOBAL"): "state of one markdown export, set by _set_global at the start of to_markdown and restored by _restore_global at its end",
+}
+
+
+def _no_process_state(ctx, rid: str, text: str, why: str):
+    repo = ctx.repo
+    ctx.rule(rid, text, floor=500)
+    sites: dict[int, list] = {}
+    for f, node, name in global_store_sites(repo):
+        if (f.file, name) in _GOVERNED_GLOBALS:
+            continue
+        sites.setdefault(id(f.node), []).append((node, name))
+    # positive control: the detector must see the two governed stores of today's tree
+    seen = {(f.file, name) for f, _n, name in global_store_sites(repo)}
+    if not set(_GOVERNED_GLOBALS) <= seen:
+        raise AnalysisError(f"{rid}: the module-level store detector does not see the governed stores any more: {sorted(set(_GOVERNED_GLOBALS) - seen)}")
+    n = 0
+    for f in repo.all_funcs():
+        if f.kind == "nested":
+            continue
+        n += 1
+        b = sites.get(id(f.node), [])
+        ctx.instance(rid, f"{f.file}:{f.ident}", "keeps nothing in a module-level container", ok=not b, nontrivial=bool(b), line=f.node.lineno)
+        for node, name in b[:2]:
+            ctx.report(rid, f, node, norm(node, 50),
+                       f"{f.ident} writes the module-level container `{name}` (`{norm(node, 50)}`): {why}")
+
+
+def r18g(ctx):
+    """A codec is a function of its argument alone.
+
+    "decode(encode(v)) == v for every v": a result remembered in a module-level table makes the answer depend on which values were converted
+    earlier in the process — two values that share a key get one answer.  Rule (expected count 0 beyond the named governed containers; the
+    detector is checked against those on every run): no function of the package stores into a container bound at module level.
+    """
+    _no_process_state(ctx, "R18g", "no function keeps answers in a module-level container (codecs depend on their argument only)",
+                      "the answer of a later call then depends on the calls made before it in the same process, not on its argument alone — two values that share a key "
+                      "are encoded alike and no longer decode to themselves")
+
+
+def r11m(ctx):
+    """What a save writes depends on the document, not on the saves made before it.
+
+    The indenter decides per element whether it is textual (no white space may be added inside it).  A decision remembered in a module-level
+    table is taken once per process: the first element seen under a key decides for every later one, in every later document.  Same rule as
+    R18g, stated for the save path.
+    """
+    _no_process_state(ctx, "R11m", "no function keeps answers in a module-level container (a save depends on the document only)",
+                      "the decision taken for the first element seen under a key is then applied to every later one in the process — an element of another namespace "
+                      "with the same local name is indented as structure and its text changes on a pretty save")
+
+
+def r10k(ctx):
+    """A folder is listed under the path it is walked into.
+
+    `Container.clone` of a folder-backed container loads the parts `_parse_folder` lists.  The lister names a file by its path relative to the
+    document folder and walks into a sub-folder by calling itself; unless the recursion is given that same relative path, a folder two levels
+    down is looked for one level down, found missing, and everything below it is absent from the clone.  Rule: every recursive call of
+    `_parse_folder` passes (a str() / as_posix() of) the local defined as `<entry>.relative_to(self.path)` — the one the file names come from.
+    """
+    repo = ctx.repo
+    ctx.rule("R10k", "Container._parse_folder recurses into the path relative to the document folder, the one its file names are built from", floor=1)
+    f = repo.func("Container._parse_folder")
+    rel = set()
+    for a in walk_no_nested(f.node):
+        if isinstance(a, ast.Assign) and len(a.targets) == 1 and isinstance(a.targets[0], ast.Name) and isinstance(a.value, ast.Call) \
+                and call_name(a.value) == "relative_to" and a.value.args and ast.unparse(a.value.args[0]) == "self.path":
+            rel.add(a.targets[0].id)
+    n = 0
+    for c in walk_no_nested(f.node):
+        if isinstance(c, ast.Call) and call_name(c) == "_parse_folder" and c.args:
+            n += 1
+            arg = c.args[0]
+            names = {x.id for x in ast.walk(arg) if isinstance(x, ast.Name)}
+            direct = any(isinstance(x, ast.Call) and call_name(x) == "relative_to" and x.args and ast.unparse(x.args[0]) == "self.path" for x in ast.walk(arg))
+            ok = bool(names & rel) or direct
+            ctx.instance("R10k", f"{f.file}:{f.ident}", norm(c, 50), ok=ok, nontrivial=True, line=c.lineno)
+            if not ok:
+                ctx.report("R10k", f, c, norm(c, 50),
+                           f"{f.ident} walks into `{norm(arg, 40)}`, not into the entry's path relative to the document folder: a folder below the first level is looked up "
+                           f"in the wrong place, so its parts are missing from the listing and from every clone of a folder-opened document")
+    if n < 1 or not rel:
+        raise AnalysisError("R10k: recursion or relative path not found in Container._parse_folder")
